@@ -688,7 +688,9 @@ pub fn run_history(rng : &mut Rng, run : &mut HistRun, prop : &str, tally : &mut
     let mut found : Vec<Violation> = vec![];
     let max_ops = run.cfg.max_ops;
     let mut steps = 0;
-    while steps < max_ops && found.len() == 0
+    // a history ends at the first violation of the property this check decides; alarms of other properties are
+    // counted but do not hide what happens next from this property's monitor
+    while steps < max_ops && !found.iter().any(|v| v.property == prop || v.property == "INCONCLUSIVE")
     {
         steps += 1;
         let op = run.choose_op(rng);
@@ -805,11 +807,9 @@ pub fn run_history(rng : &mut Rng, run : &mut HistRun, prop : &str, tally : &mut
                 run.last_build_goal = Some(goal.clone());
                 if obs.verdict.is_ok() { run.successful_builds += 1; }
             }
-            if v.len() > 0
-            {
-                found.extend(v);
-                break;
-            }
+            let decisive = v.iter().any(|x| x.property == prop);
+            found.extend(v);
+            if decisive { break; }
         }
     }
     HistOutcome { violations : found, ops : run.world.ops.clone() }
